@@ -91,6 +91,12 @@ def handle (op : String) (j : Json) : Except String Json := do
   | "call" =>
     let es ← (← getArr j "emits").toList.mapM emitOf
     pure (traceJson (call facts (← getBool j "sse") (← handlersOf j) (← getNat j "reqId") es (← answerOf (← j.getObjVal? "answer"))))
+  | "frames" =>
+    let es ← (← getArr j "emits").toList.mapM emitOf
+    let a ← answerOf (← j.getObjVal? "answer")
+    let reqId ← getNat j "reqId"
+    let fs := if (← getBool j "sse") then serverFrames reqId es a else [answerJson reqId a]
+    pure (Json.mkObj [("frames", Json.arr (fs.map toLean).toArray)])
   | "read" =>
     let frames := (← getArr j "frames").toList.map ofLean
     pure (traceJson (readLoop facts (← handlersOf j) (← getNat j "reqId") frames RS.init))
